@@ -82,6 +82,14 @@ check("C20", "fault_enumeration",
       "Trusted: the differential oracle and canonicaliser; default settings (dbg). Genuine defects (correlate-stage errors abort the whole run) are listed known findings matched by error class.",
       "exhaustive fault enumeration (one corrupted file per execution, all positions) with differential oracle", "DESIGN.md 5/C20")
 
+check("C03", "model_checking",
+      "(a) a skeleton with 37 documentable statements of every entity kind, each with a unique tracer sentence: all entities in each of the four marker styles x 4 marker "
+      "configurations, every source-adjacent pair x 4x4 styles x inline/own-line x separators (blank, ordinary comment, both) x marker configurations, every single entity "
+      "documented alone; (b) all sequences of <= 4 documentation blocks (paragraphs, lists, code, all admonition kinds in every documented termination form) through the real "
+      "MetaMarkdown with the visible text required to contain each tracer word once and in order; (c) metadata keys x entity kinds.",
+      "Trusted: the skeleton/expected mapping in checks/c03.py; for multi-name statements the oracle accepts the comment on at least one declared name and nothing else; mid-line admonition start markers are not generated.",
+      "bounded-exhaustive product (adjacent pairs x styles x separators x markers; block sequences) with tracer-word oracle", "DESIGN.md 5/C03")
+
 ALL = [f"C{i:02d}" for i in range(1, 21)]
 PENDING_REASON = "check not built yet in this round (planned: see DESIGN.md section 5); will be claimed once its exhaustive check exists"
 
